@@ -478,6 +478,27 @@ def _interpolate_rule(model, rep):
         f"{bad[3]!r}: coefficient row i must multiply local function i of "
         f"the same component and field, once, for every i" if bad else ""),
        fn.lineno)
+    # the forms see len(basis[i]) components of every local function; the
+    # number of fields interpolate returns must be the same also when the
+    # element is a *wrapper* around a composite (ElementDG(ElementComposite))
+    # that split() does not recognise - it then returns one part
+    obj1 = Obj(bcls, {"N": Poly.sym("N"), "Nbfun": NB, "basis": basis,
+                      "element_dofs": ED(), "elem": Obj(None, {}),
+                      "split": PyFunc(lambda a, k, n: [("w", comp)])})
+    try:
+        r1 = Interp(model, call_hook=hook).call(fn, [W()], {}, self_obj=obj1)
+    except (Unsupported, Raised) as e:
+        raise AnalysisError(f"AbstractBasis.interpolate (wrapped "
+                            f"composite): {e}")
+    n1 = len(r1) if isinstance(r1, tuple) and r1 and isinstance(
+        r1[0], tuple) and r1[0][0] == "field" else 1
+    _v(rep, R3, n1 == NC, "interpolate:components",
+       f"{NC} fields for basis functions of {NC} components, whatever "
+       f"split() recognises", path, "AbstractBasis.interpolate",
+       f"for basis functions with {NC} components interpolate returns "
+       f"{n1} field(s) when split() reports one part (an element wrapping a "
+       f"composite, e.g. ElementDG(ElementTriP1() * ElementTriP0())): the "
+       f"forms pair w.uh[1] with the cell axis of component 0", fn.lineno)
     # kept as separate obligations for the report
     for cons, msg in (("interpolate:range", "all Nbfun local functions "
                        "contribute"),
@@ -1151,6 +1172,11 @@ _AD = "skfem/autodiff/__init__.py"
 _CO = "skfem/assembly/form/coo_data.py"
 _FM = "skfem/assembly/form/form.py"
 MUTANTS = [
+    ("interpolate counts its components through split()",
+     (_AB, "        for c in range(len(self.basis[0])):\n            ref = "
+      "self.basis[0][c].astuple",
+      "        refs = self.split(w)\n        for c in range(len(refs)):\n"
+      "            ref = refs[c][1].basis[0][0].astuple"), "C01-R3"),
     ("COO dot accumulates into a vector shaped like its argument",
      (_CO, "        z = np.zeros(self.shape[0], dtype=np.result_type("
       "self.data, x))", "        z = np.zeros_like(x)"), "C01-R2"),
